@@ -487,3 +487,45 @@ RULES.setdefault("C09", []).append(Rule("C09.R6", "re-homing preserves the URI (
 
 RULES.setdefault("C01", []).append(Rule("C01.R6", "re-homing preserves the URI (shared with C03.R3): names printed in a container resolve through its own declarations", 5, c03_r3, "F-OWN",
                                         "a QualifiedName argument used inside a bundle keeps its URI through the JSON text"))
+
+
+@rule("C03", "C03.R9", "name resolution is not memoised across registrations: the resolver writes no table of its own", 1, family="F-WRITE",
+      decides="a 'prefix:local' string resolved before a registration is resolved afresh after it")
+def c03_r9(ctx: Ctx, rule):
+    res = RuleResult()
+    ft, owned, default = manager_fields(ctx)
+    q = NSM + ".valid_qualified_name"
+    registrars = {NSM + ".add_namespace", NSM + ".set_default_namespace"}
+    all_fields = set(ft) | {f for f in owned}
+    # fields of the manager written by the resolver itself (directly)
+    sites = [s for s in mutation_sites(ctx, {n for n in field_names_of(ctx)}) if s.func == q and s.receiver == "self"]
+    n = 0
+    for s in sites:
+        n += 1
+        if s.field in default and s.how == "rebind":
+            res.ob("resolver adopts a default namespace: %s" % s.text[:60], nontrivial=False)
+            res.exceptions.append("valid_qualified_name adopts the argument's default namespace when the scope has none (`%s`): a registration, not a cache" % s.text[:50])
+            continue
+        # is the field reset by every registrar?
+        resets = {r for r in registrars if any(x.field == s.field and (x.how in ("rebind", "call:clear") or x.how == "delitem") for x in mutation_sites(ctx, {s.field}) if x.func == r)}
+        ok = resets == registrars
+        res.ob("resolver writes self.%s (%s); reset by every registration method: %s" % (s.field, s.text[:50], ok))
+        if not ok:
+            res.fail(rule.id, "resolution-cache::%s" % s.field, ctx.loc(q, s.node),
+                     "valid_qualified_name stores its results in self.%s (`%s`), which add_namespace / set_default_namespace do not invalidate" % (s.field, s.text[:50]),
+                     "ex->A; foo->A (alias of ex); resolve 'foo:report' (cached A+report); add_namespace(foo, B): names handed out for B print as foo:report but the string resolves to A+report")
+    if n == 0:
+        res.ob("the resolver writes no field of its own", nontrivial=False)
+    return res
+
+
+def field_names_of(ctx: Ctx):
+    """Every attribute name assigned on self anywhere in NamespaceManager (fields created outside __init__ included)."""
+    names = set()
+    for mname, mq in ctx.p.classes[NSM].methods.items():
+        for n in walk_function(ctx.fn(mq).node):
+            if isinstance(n, ast.Attribute) and isinstance(n.value, ast.Name) and n.value.id == "self" and isinstance(n.ctx, ast.Store):
+                names.add(n.attr)
+            if isinstance(n, ast.Subscript) and isinstance(n.ctx, ast.Store) and isinstance(n.value, ast.Attribute) and isinstance(n.value.value, ast.Name) and n.value.value.id == "self":
+                names.add(n.value.attr)
+    return names
